@@ -363,6 +363,11 @@ def _sweep(world, samplers, case, keys, mts, trees, tags, budget_):
                 Kx, lx = exact.transition_matrix(samplers[nm].sample_tree, keys, trees, rng, comp + "/" + nm, tags, budget_)
                 mats.append(Kx)
                 l6 += lx
+            # under the updated value each of the two tree updates must leave THAT posterior invariant (n = 2: the subtree
+            # move resamples the whole tree, so it is exact) - a sampler that kept the old value fails here
+            pi1, _ = exact.target(world, trees)
+            for nm, Kx in zip(("pg", "sub"), mats):
+                exact.check_invariance(pi1, Kx, keys, mts, "sweep/after-concentration-update/" + nm, dict(tags, alpha=a1), TOL)
             td.prior.alpha = a0
             # the data-point and prune-regraft moves are switched off in this two-iteration run to keep the
             # enumeration small (they read the distribution object directly and are covered by the one-iteration check)
